@@ -72,13 +72,27 @@ def shards(tier, seed):
     from checks.c20 import RESULTS
     for k in RESULTS[:6]:
         out.append({"part": "attr", "result": k, "depth": 2 if tier == "quick" else 3, "seed": seed})
+    for backend in ("numba", "numpy", "cuda"):
+        out.append({"part": "refill", "backend": backend, "seed": seed})
     out += pairhist.shards_for(PROPERTY, force=True)
-    out.sort(key=lambda s: {"pairs": 0.7, "sched": 0, "attr": 1, "conf": 2, "conf_analysis": 2, "hist": 3, "selftest": 4}[s["part"]] + (0 if s.get("bound", 1) is None and s.get("K") == 3 else 0.5))
+    out.sort(key=lambda s: {"refill": 0.6, "pairs": 0.7, "sched": 0, "attr": 1, "conf": 2, "conf_analysis": 2, "hist": 3, "selftest": 4}[s["part"]] + (0 if s.get("bound", 1) is None and s.get("K") == 3 else 0.5))
     return out
+
+
+IN_SIM = os.environ.get("NUMBA_ENABLE_CUDASIM") == "1"
 
 
 def run_shard(shard):
     ana.quiet()
+    if shard.get("part") == "refill":
+        if shard["backend"] == "cuda" and not IN_SIM:
+            env = dict(os.environ, NUMBA_ENABLE_CUDASIM="1", NUMBA_NUM_THREADS="1")
+            p = subprocess.run([sys.executable, "-m", "mc.simworker", "checks.c14"], input=json.dumps(shard), capture_output=True, text=True,
+                               env=env, cwd=fw.ROOT, timeout=3600)
+            if p.returncode != 0:
+                raise RuntimeError(f"cuda-sim worker failed rc={p.returncode}\n{p.stderr[-3000:]}")
+            return json.loads(p.stdout.splitlines()[-1])
+        return _refill(shard)
     if shard.get("part") == "pairs":
         return pairhist.run_pair_shard(shard, ("plan", "sched", "raw", "single", "derived", "nf"))
     return {"selftest": _selftest, "sched": _sched, "conf": _conf, "conf_analysis": _conf_analysis, "hist": _hist, "attr": _attr,
@@ -477,3 +491,65 @@ def _attr(shard):
     return {"evals": ex.transitions, "nontrivial": ex.transitions, "failures": fails,
             "samples": [{"result": shard["result"], "access order": h} for h in ex.samples[:1]],
             "extra": {"states": ex.states, "transitions": ex.transitions, "traces_validated_against_impl": ex.replayed, "max_depth": ex.max_depth}}
+
+
+def _refill(shard):
+    """Call history through the caller's buffer: analyse a buffer, overwrite its contents in place, analyse it again (same
+    analyzer class, new analyzer; and the kernels directly). The second result must be that of the new contents."""
+    from mc import kern
+    from speckit import compute_spectrum
+    from speckit.analysis import SpectrumAnalyzer
+
+    backend = shard["backend"]
+    out = {"evals": 0, "nontrivial": 0, "failures": [], "samples": [], "extra": {}}
+    N = 200
+    kw = dict(olap=0.5, Jdes=8, Kdes=3, win="hann", scheduler="ltf", backend=backend)
+    seen = set()
+
+    def add(tag, msg):
+        if tag not in seen:
+            seen.add(tag)
+            out["failures"].append(fw.fail(f"refill/{backend}/{tag}", f"refill/{backend}/{tag}: {msg}", dict(shard)))
+
+    for mode, order in itertools.product(("auto", "cross"), (-1, 0, 2)):
+        a = records.id1(N) if mode == "auto" else np.stack([records.id1(N), records.id2(N)])
+        b = records.id3(N) * 2 + 1 if mode == "auto" else np.stack([records.id3(N) * 2 + 1, records.id4(N)])
+        want = _raw_key(compute_spectrum(np.array(b, copy=True), 2.0, order=order, **kw))
+        buf = np.ascontiguousarray(a, dtype=np.float64).copy()
+        first = _raw_key(compute_spectrum(buf, 2.0, order=order, **kw))
+        buf[...] = b                                   # same memory, new contents
+        second = _raw_key(compute_spectrum(buf, 2.0, order=order, **kw))
+        out["evals"] += 1
+        out["nontrivial"] += 1
+        if second != want:
+            add(f"analysis/{mode}", f"order {order}: after overwriting the caller's buffer in place, the analysis of the new contents {'equals the analysis of the OLD contents' if second == first else 'differs from a fresh analysis of the same samples'}")
+        # same analyzer object whose data alias the caller's buffer: single-bin after refill
+        buf2 = np.ascontiguousarray(a, dtype=np.float64).copy()
+        an = SpectrumAnalyzer(buf2, 2.0, order=order, **kw)
+        an.compute_single_bin(0.3, L=32)
+        ref_an = SpectrumAnalyzer(np.array(b, copy=True), 2.0, order=order, **kw)
+        if np.shares_memory(an.data, buf2):            # only meaningful if the analyzer keeps a view of the caller's buffer
+            buf2[...] = b
+            got = _raw_key(an.compute_single_bin(0.3, L=32))
+            out["evals"] += 1
+            if got != _raw_key(ref_an.compute_single_bin(0.3, L=32)):
+                add(f"single/{mode}", f"order {order}: analyzer whose data alias the caller's buffer returns stale numbers after the buffer was refilled")
+    # kernel level
+    x = np.ascontiguousarray(records.id1(64))
+    y = np.ascontiguousarray(records.id2(64))
+    starts = np.array([0, 10, 32], dtype=np.int64)
+    win = np.ascontiguousarray(np.hanning(32))
+    for cross, order in itertools.product((True, False), (-1, 0, 1)):
+        k = kern.get_kernel(backend, cross, order)
+        bx, by = x.copy(), y.copy()
+        k(bx, by if cross else None, starts, 32, win, 0.7)
+        bx[:] = records.id3(64)
+        by[:] = records.id4(64)
+        got = k(bx, by if cross else None, starts, 32, win, 0.7)
+        want = k(records.id3(64).copy(), records.id4(64).copy() if cross else None, starts, 32, win, 0.7)
+        out["evals"] += 1
+        out["nontrivial"] += 1
+        if np.array(got).tobytes() != np.array(want).tobytes():
+            add(f"kernel/{'csd' if cross else 'auto'}", f"order {order}: kernel called again on the same (refilled) arrays returns {got}, fresh arrays with the same samples give {want}")
+    out["samples"].append({"refill": backend, "N": N})
+    return out
